@@ -210,6 +210,12 @@ func (fr *Frame) bigIntrinsic(st *State, site ssa.Instruction, full string, fn *
 	if !strings.HasPrefix(full, "(*math/big.Int).") && full != "math/big.NewInt" {
 		return nil, false
 	}
+	if r, ok := fr.bigCall(st, fn, args); ok {
+		return r, true
+	}
+	if fr.v.opaqueOK(fn) {
+		return nil, false
+	}
 	unsup("math/big method %s not modelled", full)
 	return nil, false
 }
@@ -344,6 +350,17 @@ func (fr *Frame) ringCall(st *State, fn *ssa.Function, args []Value) (Value, boo
 		return set(F.Mul(ld(1), ld(2)))
 	case "Conjugate":
 		return set(F.App("ring.conj."+recvName(rt), SInt, ld(1)))
+	case "Exp":
+		// z.Exp(x, k): x^k for any integer k (uninterpreted; the exponent is the integer held by the big.Int)
+		if len(args) == 3 && v.isBig(fn.Signature.Params().At(1).Type().(*types.Pointer).Elem()) {
+			var base *Term
+			if t, isT := args[1].(*Term); isT {
+				base = t
+			} else {
+				base = ld(1)
+			}
+			return set(F.App("ring.exp", SInt, base, ld(2)))
+		}
 	}
 	// any other method of an abstract element type: opaque effect (fresh receiver, fresh results). Sound for
 	// pointer receivers that write only their receiver; value results are unconstrained.
